@@ -250,3 +250,26 @@ func init() {
 			Old: "\ts.clauseBumpActivity(c)\n\tif s.Certified {", New: "\ts.clauseBumpActivity(c)\n\tif c.Len() == 2 {\n\t\treturn\n\t}\n\tif s.Certified {", Expect: "R6.1"},
 	)
 }
+
+func init() {
+	addSeeds(
+		// ---- C07 ----
+		seed{Prop: "C07", Name: "shallow-copy-returned-again", File: "explain/check.go",
+			Old: "\t\treturn pb.clone(), nil", New: "\t\tpb2 := *pb\n\t\treturn &pb2, nil", Expect: "R7.1"},
+		seed{Prop: "C07", Name: "maxsat-relaxes-callers-clauses", File: "explain/mus.go",
+			Old: "\tfor i, clause := range pb2.Clauses {\n\t\tpb2.Clauses[i] = append(clause, relaxLit)",
+			New: "\tfor i, clause := range pb.Clauses {\n\t\tpb.Clauses[i] = append(clause, relaxLit)", Expect: "R7.1"},
+		seed{Prop: "C07", Name: "deletion-bumps-callers-nbvars", File: "explain/mus.go",
+			Old: "\tpb2.NbVars += pb2.NbClauses          // Add one relax var for each clause", New: "\tpb.NbVars += pb2.NbClauses\n\tpb2.NbVars = pb.NbVars", Expect: "R7.1"},
+		seed{Prop: "C07", Name: "subset-strips-literal-in-place", File: "explain/mus.go",
+			Old: "\t\t\tclause := pb2.Clauses[i]\n\t\t\tclause = clause[:len(clause)-1] // Remove relax lit",
+			New: "\t\t\tclause := pb2.Clauses[i]\n\t\t\tif i < len(pb.Clauses) && len(pb.Clauses[i]) > 0 {\n\t\t\t\tpb.Clauses[i][0] = clause[0]\n\t\t\t}\n\t\t\tclause = clause[:len(clause)-1] // Remove relax lit", Expect: "R7.1"},
+		seed{Prop: "C07", Name: "subset-error-ignored", File: "explain/mus.go",
+			Old: "\tpb2, err := pb.UnsatSubset()\n\tif err != nil {\n\t\treturn nil, fmt.Errorf(\"could not extract MUS: %v\", err)\n\t}\n\tmus = &Problem{NbVars: pb2.NbVars}",
+			New: "\tpb2, _ := pb.UnsatSubset()\n\tmus = &Problem{NbVars: pb2.NbVars}", Expect: "R7.2"},
+		seed{Prop: "C07", Name: "subset-error-swallowed", File: "explain/mus.go",
+			Old: "\t\tif err == ErrNotUnsat {\n\t\t\treturn nil, err\n\t\t}", New: "\t\tif err == ErrNotUnsat {\n\t\t\treturn nil, nil\n\t\t}", Expect: "R7.2"},
+		seed{Prop: "C07", Name: "benign-clone-inlined", File: "explain/check.go",
+			Old: "\t\treturn pb.clone(), nil", New: "\t\tcp := pb.clone()\n\t\treturn cp, nil", Expect: ""},
+	)
+}
